@@ -1,4 +1,3 @@
--- Root of the library: everything that `lake build` checks.
+-- Root of the library: everything that `lake build` checks (Props files that exist are imported by `./check setup`).
 import RexModel.Prelude
 import RexModel.Driver.All
-import RexModel.Props.C17
